@@ -161,6 +161,13 @@ def in_child(fn, *args, timeout=120, environ=None):
     return tuple(json.loads(data.decode()))
 
 
+def par_map(fn, arglists, nproc=14, timeout=300):
+    """run fn(*args) for every args tuple in forked children, nproc at a time; results (in_child tuples) in order"""
+    from concurrent.futures import ThreadPoolExecutor
+    with ThreadPoolExecutor(max_workers=nproc) as ex:
+        return list(ex.map(lambda a: in_child(fn, *a, timeout=timeout), arglists))
+
+
 def scratch_dir(prefix="eups-verif."):
     base = os.environ.get("EUPS_VERIF_SCRATCH") or os.environ.get("TMPDIR") or "/tmp"
     return tempfile.mkdtemp(prefix=prefix, dir=base)
